@@ -43,7 +43,8 @@ void *vf_realloc(void *q, size_t n, const char *fn, const char *ex) {
     if (tick(fn, ex)) return NULL;
     size_t old = q ? malloc_usable_size(q) : 0;
     void *p = realloc(q, n);
-    if (p) { if (q) { vf_live--; vf_live_bytes -= (long) old; vf_moved += (long) (old < n ? old : n); } in(p); }
+    /* bytes are charged as moved only when the block really moved (an in-place extension copies nothing) */
+    if (p) { if (q) { vf_live--; vf_live_bytes -= (long) old; if (p != q) vf_moved += (long) (old < n ? old : n); } in(p); }
     return p;
 }
 char *vf_strdup(const char *s, const char *fn, const char *ex) { if (tick(fn, ex)) return NULL; return in(strdup(s)); }
